@@ -5,6 +5,7 @@ package pfcp
 import (
 	"fmt"
 	"net"
+	"time"
 
 	"github.com/wmnsk/go-pfcp/ie"
 	"github.com/wmnsk/go-pfcp/message"
@@ -36,4 +37,12 @@ func zzDeliver(s *PfcpServer, msg message.Message, addr net.Addr, seq uint32) {
 
 func zzAssocReq(seq uint32, nodeID string) *message.AssociationSetupRequest {
 	return message.NewAssociationSetupRequest(seq, ie.NewNodeID(nodeID, "", ""))
+}
+
+func zzHbReq(seq uint32) *message.HeartbeatRequest {
+	return message.NewHeartbeatRequest(seq, ie.NewRecoveryTimeStamp(time.Unix(1700000000, 0)), nil)
+}
+
+func zzAssocReqNoNode(seq uint32) *message.AssociationSetupRequest {
+	return message.NewAssociationSetupRequest(seq, ie.NewRecoveryTimeStamp(time.Unix(1700000000, 0)))
 }
